@@ -98,19 +98,36 @@ Obj == Atom("point")
 K(s) == MakeKey(<<Obj, Atom("id(point)")>> \o s)
 PosKey    == K(<<Atom("position")>>)
 GamKey    == K(<<Atom("gamma")>>)
-CnKey(k)  == K(<<Atom("cn"), Atom(k)>>)
 LmKey     == K(<<Atom("linear_modes")>>)
 NftKey    == K(<<Atom("normal_form_transform")>>)
 LdKey     == K(<<Atom("linear_data")>>)
 EnKey     == K(<<Atom("energy")>>)
 JacKey    == K(<<Atom("jacobi_constant")>>)
-SfKey(a)  == K(<<Atom("scale_factor")>> \o (IF Collinear /\ ~ScaleKeyHasArgs THEN <<>> ELSE <<Atom(a)>>))
-StabKey(o, c) == K(<<Tup(<<Tup(<<Atom("delta"), Atom(o)>>), Tup(<<Atom("tol"), Atom("1")>>)>>)>>
-                   \o (IF StabKeyHasConfig THEN <<Atom(c)>> ELSE <<>>))
-CMKey(d)     == K(<<Atom("center_manifold"), Atom(d)>>)
-HamKey(d, f) == K(<<Atom("hamiltonian"), Atom(d), Atom(f)>>)
-HsKey(d, f)  == K(<<Atom("hamsys"), Atom(d), Atom(f)>>)
-GfKey(d)     == K(<<Atom("generating_functions"), Atom(d)>>)
+SfKeyF(a)  == K(<<Atom("scale_factor")>> \o (IF Collinear /\ ~ScaleKeyHasArgs THEN <<>> ELSE <<Atom(a)>>))
+StabKeyF(o, c) == K(<<Tup(<<Tup(<<Atom("delta"), Atom(o)>>), Tup(<<Atom("tol"), Atom("1")>>)>>)>>
+                    \o (IF StabKeyHasConfig THEN <<Atom(c)>> ELSE <<>>))
+CnKeyF(k)     == K(<<Atom("cn"), Atom(k)>>)
+CMKeyF(d)     == K(<<Atom("center_manifold"), Atom(d)>>)
+HamKeyF(d, f) == K(<<Atom("hamiltonian"), Atom(d), Atom(f)>>)
+HsKeyF(d, f)  == K(<<Atom("hamsys"), Atom(d), Atom(f)>>)
+GfKeyF(d)     == K(<<Atom("generating_functions"), Atom(d)>>)
+\* constant-level tables of the parameterised keys (TLC evaluates them once)
+AllCn   == CnOrders \cup {"k2"} \cup UNION {CnUpTo[d] : d \in Degrees}
+AllOpts == UserOpts \cup {DefaultOpt}
+CnTab   == [k \in AllCn |-> CnKeyF(k)]
+SfTab   == [a \in SfArgs |-> SfKeyF(a)]
+StabTab == [x \in AllOpts \X {"cC", "cD"} |-> StabKeyF(x[1], x[2])]
+CMTab   == [d \in Degrees |-> CMKeyF(d)]
+HamTab  == [x \in Degrees \X Forms |-> HamKeyF(x[1], x[2])]
+HsTab   == [x \in Degrees \X Forms |-> HsKeyF(x[1], x[2])]
+GfTab   == [d \in Degrees |-> GfKeyF(d)]
+CnKey(k)      == CnTab[k]
+SfKey(a)      == SfTab[a]
+StabKey(o, c) == StabTab[<<o, c>>]
+CMKey(d)      == CMTab[d]
+HamKey(d, f)  == HamTab[<<d, f>>]
+HsKey(d, f)   == HsTab[<<d, f>>]
+GfKey(d)      == GfTab[d]
 
 (***************************************************************************)
 (* The factories, as cache transformers.  Fill = get_or_create's effect on *)
